@@ -465,12 +465,14 @@ package zygo
 //@ requires typeinv[Stack] wfs(stack)
 //@ C04,C05 modifies stack.tos, stack.elements, elems(stack.elements)
 //@ C04,C05 ensures wfs(stack) && stack.tos == old(stack.tos) + 1
+//@ C04 ensures top: typeis(stack.elements[stack.tos], DataStackElem) && stack.elements[stack.tos].(DataStackElem).expr == expr
 
 //@ func (*Stack).PopExpr
 //@ requires typeinv[Stack] wfs(stack)
 //@ C04,C05 modifies stack.tos, stack.elements, elems(stack.elements)
 //@ C04,C05 ensures ok: r1 == nil ==> wfs(stack) && old(stack.tos) >= 0 && stack.tos == old(stack.tos) - 1
 //@ C04,C05 ensures underflow: r1 != nil ==> old(stack.tos) < 0 && stack.tos == old(stack.tos)
+//@ C04 ensures value: r1 == nil ==> r0 == old(stack.elements[stack.tos].(DataStackElem).expr)
 
 //@ func functionSize
 //@ C05 pure
@@ -575,3 +577,16 @@ package zygo
 //@ func (*Generator).GenerateQuote
 //@ C04 ensures one-value: r0 == nil ==> len(gen.instructions) == old(len(gen.instructions)) + 1
 //@ C04 loop 0 invariant len(gen.instructions) == old(len(gen.instructions)) + rangeindex + 1
+
+//@ func (*Zlisp).CurrentFunctionSize
+//@ C04 pure
+//@ C04 ensures r0 == ite(env.curfunc.user, 0, len(env.curfunc.fun))
+//@ func (*Zlisp).ReachedEnd
+//@ C04 pure
+//@ C04 ensures r0 == (env.pc >= ite(env.curfunc.user, 0, len(env.curfunc.fun)))
+
+// (d) evaluating with nothing to run and an empty data stack returns nil
+//@ func (*Zlisp).Run
+//@ C04 loop 0 invariant idle: old(env.pc == -1 || env.pc >= ite(env.curfunc.user, 0, len(env.curfunc.fun))) ==> env.pc == old(env.pc) && env.curfunc == old(env.curfunc)
+//@ |  && env.curfunc.user == old(env.curfunc.user) && len(env.curfunc.fun) == old(len(env.curfunc.fun)) && env.datastack.tos == old(env.datastack.tos)
+//@ C04 ensures empty-input: old(env.pc != -1 && env.curfunc != nil && !env.curfunc.user && env.pc >= len(env.curfunc.fun) && env.datastack.tos == -1) ==> r1 == nil && r0 == SexpNull && env.datastack.tos == -1
